@@ -1,6 +1,7 @@
 import NeumannModel.Parse.FullRound
 import NeumannModel.Parse.FullTotal
 import NeumannModel.Parse.FullDeep
+import NeumannModel.Parse.FullFits
 /-
   C15 — property theorems for the COMPLETE expression grammar model (`Parse/Full.lean`): the Pratt
   loop together with the postfix level (`IS [NOT] NULL`, `[NOT] IN (…)`, `[NOT] BETWEEN … AND …`,
@@ -116,6 +117,36 @@ theorem full_round_trip_iff (mode : Mode) (extra : E → Bool) (e : E) :
 theorem full_printMin (mode : Mode) (e : E) (h : framesMin e ≤ MAX_DEPTH) :
     parse mode (printMin e) = .ok e :=
   full_round_trip mode _ e h
+
+/-- Whatever text was accepted, the tree it produced fits the depth limit when printed minimally:
+    redundant parentheses only ever cost depth, they never buy any — for every construct of the
+    grammar (an invariant of the run bounds the frames the minimal print of every partial tree
+    needs by the frames actually active). -/
+theorem full_ok_fits_depth (mode : Mode) (ts : List Tok) (e : E) (h : parse mode ts = .ok e) :
+    framesMin e ≤ MAX_DEPTH := by
+  have hinv := (run_dinv mode (fuelFor ts) _ (dinv_init ts)).2
+  unfold parse parseWith result at h
+  unfold CtlInv at hinv
+  split at h
+  · next r hr =>
+    rw [hr] at hinv
+    subst h
+    exact hinv
+  · cases h
+
+/-- NORMAL FORM: every accepted token list means the same as the minimal print of its own parse —
+    `parse ∘ printMin ∘ parse = parse`.  Together with `full_round_trip` this says that two texts
+    with the same tree are interchangeable and that the tree is the meaning: query text means one
+    thing. -/
+theorem full_normal_form (mode : Mode) (ts : List Tok) (e : E) (h : parse mode ts = .ok e) :
+    parse mode (printMin e) = .ok e :=
+  full_printMin mode e (full_ok_fits_depth mode ts e h)
+
+-- redundant parentheses, `!`, a parenthesised subject: canonical text out, same tree
+example : parse .expr [.lparen, .lparen, .ident 1, .rparen, .isKw, .null, .rparen, .op .and, .bang, .lparen, .lit 3, .rparen]
+    = .ok (.bin (.isNull (.ident 1) false) .and (.un .not (.lit 3))) := by rfl
+example : printMin (.bin (.isNull (.ident 1) false) .and (.un .not (.lit 3)))
+    = [.ident 1, .isKw, .null, .op .and, .notKw, .lit 3] := by rfl
 
 /-- The two copies of the expression grammar (`expr.rs` and `parser.rs`) group every printed
     expression the same way. -/
